@@ -610,6 +610,9 @@ func (t *T) Context() context.Context {
 		return ctx
 	}
 
+	if verifOn {
+		verifAt("ctx.miss")
+	}
 	// If we're in the middle of cleaning up
 	// and the context has already been canceled and cleared,
 	// don't create a new one. Return a canceled context instead.
@@ -622,6 +625,9 @@ func (t *T) Context() context.Context {
 	// Slow path: lock and check again, create new context if needed.
 	t.mu.Lock()
 	defer t.mu.Unlock()
+	if verifOn {
+		verifAt("ctx.locked")
+	}
 
 	if t.ctx != nil {
 		// Another goroutine set the context
@@ -663,6 +669,9 @@ func (t *T) Context() context.Context {
 func (t *T) Cleanup(f func()) {
 	t.mu.Lock()
 	defer t.mu.Unlock()
+	if verifOn {
+		verifAt("reg.locked")
+	}
 
 	t.cleanups = append(t.cleanups, f)
 }
@@ -685,6 +694,9 @@ func (t *T) cleanup() {
 		}
 	}()
 
+	if verifOn {
+		verifAt("cleanup.cancel")
+	}
 	// Context must be closed before t.Cleanup functions are run.
 	t.mu.Lock()
 	if t.cancelCtx != nil {
@@ -697,6 +709,9 @@ func (t *T) cleanup() {
 	for {
 		var cleanup func()
 		t.mu.Lock()
+		if verifOn {
+			verifAt("cleanup.pop")
+		}
 		if len(t.cleanups) > 0 {
 			last := len(t.cleanups) - 1
 			cleanup = t.cleanups[last]
@@ -806,6 +821,9 @@ func (t *T) Fail() {
 func (t *T) Failed() bool {
 	t.mu.RLock()
 	defer t.mu.RUnlock()
+	if verifOn {
+		verifAt("failed.rlocked")
+	}
 
 	return t.failed != ""
 }
@@ -817,6 +835,9 @@ func (t *T) skip(msg string) {
 func (t *T) fail(now bool, msg string) {
 	t.mu.Lock()
 	defer t.mu.Unlock()
+	if verifOn {
+		verifAt("fail.locked")
+	}
 
 	if msg == "" {
 		msg = emptyFailMsg // t.failed == "" means "not failed"
